@@ -197,15 +197,18 @@ def judgeUser (c : Config) (own : Option Str) (observed : Str) : List String :=
     | none, some _ => ["ruser:cmdline:not-used"]
     | none, none => ["ruser:default:not-used"]
 
-/-- the number of commands that were seen running at the same time, `wanted` = as many targets as the fanout in
-    force allows (the generator gives more targets than that) -/
-def judgeFanoutUsed (c : Config) (peak : Int) : List String :=
+/-- the number of commands that were seen running at the same time must be what the fanout in force allows:
+    the fanout itself when there are more targets than that (`targets = none`: the generator made sure), else the
+    number of targets — whatever the resource limits of the process are (a fanout silently lowered because few file
+    descriptors are available is not "the value given") -/
+def judgeFanoutUsed (c : Config) (peak : Int) (targets : Option Int := none) : List String :=
   let inForce : Option Int := match c.fanout.chosen with
     | some (_, t) => CInt.denotes t
     | none => some c.dfltFanout
+  let wanted (f : Int) : Int := match targets with | some n => min f n | none => f
   match inForce, c.fanout.chosen with
-  | some f, some (src, _) => if peak = f then [] else [s!"fanout:{src.name}:not-used"]
-  | some f, none => if peak = f then [] else ["fanout:default:not-used"]
+  | some f, some (src, _) => if peak = wanted f then [] else [s!"fanout:{src.name}:not-used"]
+  | some f, none => if peak = wanted f then [] else ["fanout:default:not-used"]
   | none, _ => []
 
 /-- a command that runs longer than `short` seconds and shorter than `long` seconds: was it cut short? -/
@@ -221,6 +224,44 @@ def judgeTimeoutUsed (c : Config) (short long : Int) (cut : Bool) : List String 
     else if t = 0 || t ≥ long then (if cut then [s!"command_timeout:{name}:other-limit-applied"] else [])
     else []
   | none => []
+
+/-- the connect time-out in force and the name of its source -/
+def ctmoInForce (c : Config) : Option Int × String :=
+  match c.ctmo.chosen with
+  | some (src, t) => (CInt.denotes t, src.name)
+  | none => (some c.dfltCtmo, "default")
+
+/-- a host whose answer to the connect handshake takes longer than `short` and less than `long` seconds: was it
+    given up BEFORE it answered?  (0 = no limit) -/
+def judgeConnectUsed (c : Config) (short long : Int) (cut : Bool) : List String :=
+  match ctmoInForce c with
+  | (some t, name) =>
+    if t ≠ 0 && t ≤ short then (if cut then [] else [s!"connect_timeout:{name}:not-applied"])
+    else if t = 0 || t ≥ long then (if cut then [s!"connect_timeout:{name}:other-limit-applied"] else [])
+    else []
+  | (none, _) => []
+
+/-- a host that NEVER answers: it must be given up (unless the limit in force is 0), not before the limit and not
+    later than the limit plus one watchdog period (plus `slack`); times in tenths of a second -/
+def judgeConnectGiven (c : Config) (given : Bool) (waited wdog slack : Int) : List String :=
+  match ctmoInForce c with
+  | (some t, name) =>
+    if t = 0 then []
+    else if !given || waited > 10 * t + wdog + slack then [s!"connect_timeout:{name}:not-applied"]
+    else if waited < 10 * t - 10 then [s!"connect_timeout:{name}:other-limit-applied"]
+    else []
+  | (none, _) => []
+
+/-- the program that was actually run on the remote side of a copy -/
+def judgePathUsed (c : Config) (observed : Str) : List String :=
+  let inForce : Str := match c.path.chosen with
+    | some (_, t) => t
+    | none => c.dfltPath
+  if observed = inForce then []
+  else
+    match c.path.chosen with
+    | some (src, _) => [s!"path:{src.name}:not-used"]
+    | none => ["path:default:not-used"]
 
 /-- which of the two conflicting test modules must be active given the module-selection texts -/
 def miscExpected (c : Config) : Str :=
